@@ -17,6 +17,7 @@ mod fam_sync;
 mod fam_hexcol;
 mod fam_edit;
 mod fam_chg;
+mod fam_txn;
 mod gen;
 mod model;
 
@@ -49,6 +50,7 @@ fn main() {
         "hexcol" => fam_hexcol::run(&mut rng, &tier, out),
         "edit" => fam_edit::run(&mut rng, &tier, out),
         "chg" => fam_chg::run(&mut rng, &tier, out),
+        "txn" => fam_txn::run(&mut rng, &tier, out),
         _ => {
             eprintln!("unknown family {}", fam);
             std::process::exit(2);
